@@ -150,7 +150,7 @@ func genSeqPlan(r *rand.Rand, focus string) *ProxyPlan {
 			res.Size = 0
 		}
 	case "c06":
-		res.CondMode = []string{"304", "304", "304", "200", "404", "500"}[r.IntN(6)]
+		res.CondMode = []string{"304", "304", "304", "200", "404", "500", "503-once", "503-once"}[r.IntN(8)]
 		for i := 0; i < 1+r.IntN(2); i++ {
 			res.BumpAtMs = append(res.BumpAtMs, reqs[r.IntN(len(reqs))].AtMs+int64(r.IntN(3))-1)
 		}
